@@ -80,6 +80,18 @@ class ScopeUnit(Unit):
         touched, admitted, released, workdone = set(), set(), set(), set()
         setting = {}          # thread -> reference whose release made it responsible for the set
         out = []
+        jprog = [JPROG[self.variant][c] for c in jn]
+        jpos = [0] * len(jn)  # next instruction of each closer/joiner
+        stop_is_set = [False]
+        def own_op(j, kind):
+            """joiner j performs its program instruction `kind`; a request_stop() that found the
+            stop bit already set touches nothing the model owns: it is placed just before the
+            thread's next own instruction (it changes no model state there)"""
+            pr = jprog[j]
+            if jpos[j] < len(pr) and pr[jpos[j]] == "s" and kind != "s":
+                out.append((n + j, "stop NOP")); jpos[j] += 1
+            if jpos[j] < len(pr) and pr[jpos[j]] == kind:
+                jpos[j] += 1
         def ready(r):
             return r in admitted and r not in released and (pl[r] == "d" or r in workdone)
         for e in events:
@@ -116,22 +128,30 @@ class ScopeUnit(Unit):
                         if ended:
                             adv.add(t); cur[t] = r + 1
                 else:
+                    if role == "jn":
+                        own_op(j, "c" if rest.startswith("N.") else "y")
                     out.append((own, "op " + rest))
             elif name == "evt.state":
                 who = setting.get(t, own)
                 if rest.startswith("X."):
                     out.append((who, "evt SET")); keep_setting = True
                 elif rest.startswith("L."):
+                    if role == "jn":
+                        own_op(j, "W")      # flushes a pending no-op request_stop only
                     if rest.endswith(" SIG"):
+                        if role == "jn": own_op(j, "w")
                         out.append((own, "wait 1"))
                 elif rest.startswith("C."):
                     if rest.endswith(" ok"):
+                        if role == "jn": own_op(j, "w")
                         out.append((own, "wait 0"))
                     elif re.match(r"C\.\S+ SIG->", rest):
+                        if role == "jn": own_op(j, "w")
                         out.append((own, "wait 1"))
             elif name == "stop.state":
                 mm = re.match(r"C\.\S+ (\d+)->(\d+) ok", rest)
                 if mm and not int(mm.group(1)) & 1 and int(mm.group(2)) & 1:
+                    if role == "jn": own_op(j, "s")
                     out.append((own, "stop SET"))
                 keep_setting = True
             elif name.startswith("!join"):
@@ -140,6 +160,7 @@ class ScopeUnit(Unit):
                     # after the evt set of a release: same reference; after a ready wait: the joiner
                     out.append((setting.get(t, own), "resume " + mm.group(1))); keep_setting = True
                 elif mm.group(2) == "complete":
+                    if role == "jn": own_op(j, "d")
                     out.append((own, "join %s done" % mm.group(1)))
                 elif mm.group(2) in ("error", "done"):
                     out.append((own, "join %s %s" % (mm.group(1), mm.group(2))))
@@ -165,6 +186,8 @@ class ScopeUnit(Unit):
                 keep_setting = True
             if not keep_setting:
                 setting.pop(t, None)
+            if name.startswith("!stop") and name.endswith(".returned") and role == "jn":
+                own_op(j, "R")    # request_stop() has returned: flush a no-op one
         return out
 
     def post_check(self, prog, summary, proj):
